@@ -470,3 +470,72 @@ Proof.
   intros H1 H2 H3. unfold get_handled. rewrite eff_ack_get, H1, H2.
   destruct (cka_eff_ack now f); [congruence|..]; cbn; apply orb_true_r.
 Qed.
+
+(* ---------------------------------------------------------------- the three entry points side by side *)
+
+Inductive cka_entry := CkeBase (v : via) | CkeCluster.
+
+Definition cka_entry_op (e : cka_entry) (sticky notify pers eg : bool) (expiry : Z) : cka_op :=
+  match e with
+  | CkeBase v => CkaBase (OpAck v sticky notify pers eg expiry)
+  | CkeCluster => CkaClusterSet sticky notify expiry
+  end.
+
+(* What each entry point refuses.  (1) all three refuse an already acknowledged object and leave the whole
+   state untouched, with no event of the layer; (2) the API action and the external commands also refuse an
+   OK/Up object and an expiry that is not in the future; (3) the cluster event does NOT: whatever the state of
+   the object, an unacknowledged object is acknowledged (for an OK/Up object this is finding F-C06-a). *)
+Theorem cka_refuse_entry_points c now e sticky notify pers eg expiry f :
+  let st := cka_step c now f (cka_entry_op e sticky notify pers eg expiry) in
+  (cka_eff_ack now f <> AckNone ->
+     fst st = f /\ cka_count cka_is_set (snd st) = 0 /\ cka_count cka_is_nack (snd st) = 0 /\
+     cka_count cka_is_clr (snd st) = 0) /\
+  (forall v, e = CkeBase v ->
+     entry_state_ok c f = true \/ cka_expiry_bad now v eg expiry = true ->
+     fst st = f /\ cka_count cka_is_set (snd st) = 0 /\ cka_count cka_is_nack (snd st) = 0 /\
+     cka_count cka_is_clr (snd st) = 0) /\
+  (e = CkeCluster -> cka_eff_ack now f = AckNone ->
+     f_ack (fst st) = (if sticky then AckSticky else AckNormal) /\ cka_count cka_is_set (snd st) = 1).
+Proof.
+  cbv zeta. split; [|split].
+  - intros Ha. destruct e as [v|]; cbn [cka_entry_op].
+    + destruct (cka_ack_refused c now v sticky notify pers eg expiry f (or_intror (or_introl Ha))) as (n & _ & ->).
+      cbn. auto.
+    + rewrite (cka_cluster_refused c now sticky notify expiry f Ha). cbn. auto.
+  - intros v -> H. cbn [cka_entry_op].
+    assert (entry_state_ok c f = true \/ cka_eff_ack now f <> AckNone \/ cka_expiry_bad now v eg expiry = true) as H'
+      by (destruct H; auto).
+    destruct (cka_ack_refused c now v sticky notify pers eg expiry f H') as (n & _ & ->). cbn. auto.
+  - intros -> Ha. cbn [cka_entry_op].
+    destruct (cka_cluster_accepted c now sticky notify expiry f Ha) as (A & _ & _ & B & _). cbv zeta in A, B. auto.
+Qed.
+
+(* ---------------------------------------------------------------- Acknowledgement notifications, by cases *)
+
+Theorem cka_step_set_count c now f o : 0 <= cka_count cka_is_set (snd (cka_step c now f o)) <= 1.
+Proof.
+  destruct (cka_step_sim c now f o) as (i & _ & _ & B).
+  rewrite (count_through_ev cka_is_set _ set_is_ev), B. apply ak_step_set_count.
+Qed.
+
+(* every case of "exactly one": accepted (= one set event) with notify on an active object -> exactly one;
+   paused (HA-passive) object -> none; no notify requested -> none; not accepted -> none; never two *)
+Theorem cka_step_notify_cases c now f o :
+  let n := cka_count cka_is_nack (snd (cka_step c now f o)) in
+  let sets := cka_count cka_is_set (snd (cka_step c now f o)) in
+  (cka_op_notify o = true -> sets = 1 -> f_paused f = false -> n = 1) /\
+  (f_paused f = true -> n = 0) /\
+  (cka_op_notify o = false -> n = 0) /\
+  (sets = 0 -> n = 0) /\
+  0 <= n <= 1.
+Proof.
+  cbv zeta. rewrite cka_step_notify_once.
+  pose proof (cka_step_set_count c now f o) as Hs.
+  repeat split.
+  - intros -> -> ->. reflexivity.
+  - intros ->. rewrite andb_false_r. reflexivity.
+  - intros ->. reflexivity.
+  - intros ->. rewrite andb_false_r. reflexivity.
+  - destruct (cka_op_notify o && negb (f_paused f) && _); lia.
+  - destruct (cka_op_notify o && negb (f_paused f) && _); lia.
+Qed.
